@@ -47,6 +47,11 @@ def worker(mod_json, wseed, nvalues, cfg_kw, spec_name, flags=drv.DEFAULT_FLAGS,
                 acc.extra["types_outside_property"] += 1
                 continue
             ttext = t.render()
+            if not mod.name.startswith("Cat") and pipeline.min_element_count(mod, t) > 3000:
+                # nested collections with large SIZE lower bounds: every value has thousands of elements and the Python
+                # reference encoders need seconds for each; such types are left to the catalogue (flat 16K/64K cases)
+                acc.extra["types_with_huge_minimal_values(skipped)"] += 1
+                continue
             acc.extra["types"] += 1
             strat = spec.strategy(mod, t, cfg, feats)
 
